@@ -286,3 +286,21 @@ Fixpoint extract_from_seq (fs : list field) (regs : registers) : list (field * r
       let '(xs, regs') := extract_from_seq rest (set_data regs d) in
       ((f, x) :: xs, regs')
   end.
+
+(* ---------- the Builder object across several builds ----------
+   NewRequestBuilder / Add / AddAll only append to b.fields.  The Read... methods hand b.fields to
+   split, and split only READS that slice: groupForSingleConnection ranges over it and AddField
+   appends copies of the elements to the slots it owns -- nothing is written through the slice.
+   A build therefore leaves the Builder as it was; this Go fact is what the "split_seq"
+   correspondence stream checks (successive builds on one Builder). *)
+Record builder := { bd_fields : list field }.
+Definition builder_build (b : builder) (target : N) : builder * pres (list breq) :=
+  (b, split (bd_fields b) target).
+Fixpoint builder_builds (b : builder) (targets : list N) : builder * list (pres (list breq)) :=
+  match targets with
+  | [] => (b, [])
+  | t :: rest =>
+      let '(b1, x) := builder_build b t in
+      let '(b2, xs) := builder_builds b1 rest in
+      (b2, x :: xs)
+  end.
